@@ -58,6 +58,8 @@ def apply_single(m, op: dict) -> None:
         m.add_variable(n, value(op["v"]))
     elif o == "remove_variable":
         m.remove_variable(n)
+    elif o == "remove_variable_keepst":
+        m.remove_variable(n, remove_stoichiometries=False)
     elif o == "update_variable":
         m.update_variable(n, value(op["v"]))
     elif o == "make_variable_static":
@@ -108,6 +110,10 @@ def apply_single(m, op: dict) -> None:
             kw["stoichiometries"] = {k: {v: coef_sur(co) for v, co in fn_to_dict(vv).items()}
                                      for k, vv in fn_to_dict(op["st"]).items()}
         m.update_surrogate(n, **kw)
+    elif o == "replace_surrogate":
+        sr = dict(op["sur"])
+        sr["st"] = {k: fn_to_dict(v) for k, v in fn_to_dict(sr["st"]).items()}
+        m.update_surrogate(n, surrogate(sr))
     elif o == "remove_surrogate":
         m.remove_surrogate(n)
     elif o == "add_data":
@@ -348,6 +354,10 @@ def _rand_st(rnd, m):
             st[v] = {"k": "calc", "fn": rnd.choice(["neg", "inc", "dbl"]), "args": [rnd.choice(vs + ["time"])]}
         else:
             st[v] = {"k": "num", "v": rnd.choice([-2, -1, 1, 2])}
+    if rnd.random() < 0.08:  # a name that is not (yet) a variable: accepted by the library, not evaluable until declared
+        absent = [x for x in UNI if x not in vs]
+        if absent:
+            st[rnd.choice(absent)] = {"k": "num", "v": 1}
     return st
 
 
@@ -359,10 +369,10 @@ def rand_op(rnd: random.Random, m) -> dict:
         n = rnd.choice(present)
     kind = rnd.choice([
         "add_parameter", "remove_parameter", "update_parameter", "scale_parameter", "make_parameter_dynamic",
-        "add_variable", "remove_variable", "update_variable", "make_variable_static",
+        "add_variable", "remove_variable", "remove_variable_keepst", "update_variable", "make_variable_static",
         "add_derived", "update_derived", "remove_derived",
         "add_reaction", "update_reaction", "remove_reaction",
-        "add_readout", "remove_readout", "add_surrogate", "update_surrogate", "remove_surrogate",
+        "add_readout", "remove_readout", "add_surrogate", "update_surrogate", "replace_surrogate", "remove_surrogate",
         "add_data", "update_data", "remove_data"])
     op = {"op": kind, "n": n}
     if kind in ("add_parameter", "update_parameter", "add_variable", "update_variable"):
@@ -396,6 +406,9 @@ def rand_op(rnd: random.Random, m) -> dict:
         if vs and rnd.random() < 0.6:
             st = {outs[0]: {rnd.choice(vs): {"k": "num", "v": rnd.choice([1, -1, 2])}}}
         op["sur"] = {"fns": ["inc", "dbl"], "args": [rnd.choice(names)], "outs": outs, "st": st}
+    elif kind == "replace_surrogate":
+        op["sur"] = {"fns": ["dbl", "inc"], "args": [rnd.choice(names)], "outs": rnd.choice(OUTS + [["o1", "p1"], ["p1", "p2"]]),
+                     "st": {}}
     elif kind == "update_surrogate":
         op["keepargs"] = rnd.random() < 0.5
         op["args"] = ["time"] if op["keepargs"] else [rnd.choice(names)]
@@ -486,6 +499,11 @@ def run(ctx: Ctx) -> int:
     res = ctx.tlc("ModelEdit.tla", "ModelEdit_d1.cfg")
     rep.add_tlc(res, "every mutator x 13 representative contents; OneNameSpace, StoichClosed, RejectedUnchanged")
     hs += res.payloads
+    for cfgname in (["ModelEdit_vars2.cfg"] if ctx.quick else ["ModelEdit_vars2.cfg", "ModelEdit_vars3.cfg"]):
+        res = ctx.tlc("ModelEdit.tla", cfgname)
+        rep.add_tlc(res, "all histories over the variable-only alphabet (declare / remove / remove keeping stoichiometries / "
+                         "update / clamp) from contents with a reaction on two variables, one possibly not declared")
+        hs += res.payloads
     n_d1 = len(hs)
     if ctx.quick:
         sims = [("ModelEdit_sim.cfg", 20, 8)]
